@@ -263,3 +263,81 @@ def exported_api(repo=None):
     if len(out) < 50:
         raise AnalysisBroken("fewer than 50 exported functions parsed from h3api.h.in")
     return out
+
+
+# ---------------------------------------------------------------- memory paths
+def _split_types(s):
+    """split 'a, b, c' at top level"""
+    out, depth, cur = [], 0, ""
+    for ch in s:
+        if ch in "[{<(":
+            depth += 1
+        elif ch in "]}>)":
+            depth -= 1
+        if ch == "," and depth == 0:
+            out.append(cur.strip()); cur = ""
+        else:
+            cur += ch
+    if cur.strip():
+        out.append(cur.strip())
+    return out
+
+
+def field_path(m, f, o, depth=0):
+    """(base operand key, tuple of path elements) for a pointer operand.
+    path elements: ('f', struct, fieldname) for struct fields, ('x', None|const) for array/pointer indexing."""
+    path = []
+    while depth < 64:
+        depth += 1
+        if o[0] == "i":
+            i = f.insts[o[1]]
+            if i.op == "bitcast":
+                o = i.ops[0]
+                continue
+            if i.op == "getelementptr":
+                sub = _gep_path(m, i.d.get("srcty", ""), i.ops[1:])
+                path = sub + path
+                o = i.ops[0]
+                continue
+            return (("i", i.id), tuple(path))
+        if o[0] == "a":
+            return (("a", o[1]), tuple(path))
+        if o[0] == "g":
+            return (("g", o[1]), tuple(path))
+        if o[0] == "ce" and o[1] in ("getelementptr", "bitcast"):
+            if o[1] == "getelementptr":
+                path = _gep_path(m, o[4] if len(o) > 4 else "", o[3][1:]) + path
+            o = o[3][0]
+            continue
+        return ((o[0],), tuple(path))
+    return (("?",), tuple(path))
+
+
+def _gep_path(m, ty, idxs):
+    out = []
+    first = True
+    for ix in idxs:
+        c = ix[1] if ix[0] == "c" else None
+        if first:
+            first = False
+            if c != 0:
+                out.append(("x", c))
+            continue
+        if ty.startswith("%struct.") or ty.startswith("%union."):
+            info = m.structs.get(ty[1:])
+            if info is None or c is None or c >= len(info["fields"]):
+                out.append(("?", None)); ty = ""
+                continue
+            nm = info["names"][c][0] or str(c)
+            out.append(("f", ty[8:].split(".")[0], nm))
+            ty = info["fields"][c][0]
+        else:
+            a = array_extent(ty)
+            if a:
+                out.append(("x", c)); ty = a[1]
+            elif ty.startswith("{"):
+                parts = _split_types(ty.strip("{} "))
+                out.append(("t", c)); ty = parts[c] if c is not None and c < len(parts) else ""
+            else:
+                out.append(("x", c))
+    return out
